@@ -22,7 +22,7 @@ if cargo test --workspace --no-fail-fast --offline >"$d/tests.log" 2>&1; then ec
 unset CARGO_TARGET_DIR
 cd "$ROOT"
 for p in "$@"; do
-  out=$(VERIF_HARNESS="$d/harness" ./check "$p" "$tier" 2>&1)
+  out=$(VERIF_SCRATCH="$d/scratch" VERIF_HARNESS="$d/harness" ./check "$p" "$tier" 2>&1)
   rc=$?
   echo "check $p $tier: exit=$rc $(echo "$out" | grep -c '^VIOLATION') violation line(s)"
   echo "$out" | grep -E "^VIOLATION|TOOL-ERROR|Error|error|Traceback" | head -4; if [ $rc -eq 2 ]; then echo "$out" | tail -8; fi
